@@ -327,3 +327,38 @@ def check_direct_withdraw(ctx, model, rule, execute_path, withdraw_rx, item_suff
         ctx.ob(rule, "%s|direct-withdraw|shares-are-the-attached-lp-coins" % execute_path, ok_amt and ok_den and ok_len,
                "withdraw amount from %s (must be info.funds[0].amount): %s; dominated by funds[0].denom == stored LP denom: %s; by funds.len() == 1: %s"
                % (sorted(map(repr, amt)), ok_amt, ok_den, ok_len), v.where(b))
+
+
+def check_fee_deduction_all_kinds(ctx, model, crate, rule):
+    """The pending-fee deduction applies to every pool asset whatever its kind: in each function that deducts pending fees
+    from pool balances, the subtraction is reachable both when the pool asset is a cw20 token and when it is a native coin
+    (a deduction tucked into the native-only branch leaves pending cw20 fees priced as LP reserves)."""
+    from ..dataflow import variant_excluded_edges
+    n = 0
+    for p in sorted(model.all_paths(crate)):
+        if "::migrations::" in p:
+            continue
+        v = model.view(p)
+        lookups = v.calls_to(r"helpers::get_protocol_fee_for_asset$")
+        if not lookups:
+            continue
+        subs = []
+        for b, t in lookups:
+            for xb, xt in v.calls_to(r"Uint128::checked_sub$|<cosmwasm_std::Uint128 as std::ops::Sub>::sub$|Uint128::saturating_sub$"):
+                a1 = v.origins_of_operand(xt["args"][1], at=v.at_term(xb))
+                if any(o.kind == "call" and o.b == "%s:bb%d" % (v.path, b) for o in a1):
+                    subs.append(xb)
+        if not subs:
+            continue
+        n += 1
+        pred = lambda os_: bool(os_) and any((o.kind == "call" and o.a.endswith("query_pools")) or o.kind == "param" for o in os_) and all(
+            o.proj and o.proj[-1] == "info" for o in os_)
+        bad = []
+        for kind in ("Token", "NativeToken"):
+            cut = variant_excluded_edges(v, "pool_network::asset::AssetInfo", pred, kind)
+            reach = v.reachable(0, cut_edges=cut)
+            if not all(xb in reach for xb in subs):
+                bad.append(kind)
+        ctx.ob(rule, "%s|fee-deducted-for-every-asset-kind" % p, not bad,
+               "pending-fee subtraction unreachable when the pool asset is a %s" % bad if bad else "pending-fee subtraction reachable for cw20 and native pool assets alike", v.where(subs[0]))
+    ctx.floor(rule, "%s functions deducting pending fees" % crate, n, 5)
